@@ -419,6 +419,12 @@ def c02(obs: Observer):
         a0 = obs.prev.attempts.get(k)
         new_rows = [r for r in v.T['attempt_resources'] if (r['batch_id'], r['job_id'], r['attempt_id']) == k] != \
             [r for r in obs.prev.T['attempt_resources'] if (r['batch_id'], r['job_id'], r['attempt_id']) == k]
+        if a0 is not None and billed(a0) > 0:
+            have = {r['deduped_resource_id']: r['quantity'] for r in obs.prev.T['attempt_resources']
+                    if (r['batch_id'], r['job_id'], r['attempt_id']) == k}
+            sent = {int(t.split(':')[0]): int(t.split(':')[1]) for t in ws[5:]}
+            if any(r in have and have[r] != q for r, q in sent.items()):
+                obs.tag('resource-registered-again-with-another-quantity-after-billed-time')
         if a0 is not None and billed(a0) > 0 and new_rows:
             job = v.jobs.get(k[:2])
             depth = len(v.anc.get((k[0], job['job_group_id']), [])) if job else 0
@@ -537,6 +543,8 @@ def scenario_tags(obs: 'Observer'):
             inst = p.instances.get(f'inst{ws[4]}')
             if inst is not None and inst['state'] in ('inactive', 'deleted') and (k[0], k[1], att) in obs.cur.attempts:
                 obs.tag('attempt-first-recorded-on-dead-instance')
+        if ws[0] == 'creating' and rec is None and o['state'] in TERMINAL:
+            obs.tag('creating-of-terminal-job')
         if ws[0] == 'creating' and rec is None and o['state'] == 'Ready' and not o['always_run']:
             canc = [a for a in p.anc.get((k[0], o['job_group_id']), []) if (k[0], a) in p.cancelled]
             if canc and 0 not in canc:
@@ -1155,6 +1163,14 @@ def c41(obs: Observer):
             return (cls, f'the scheduler\'s SELECT returns job {(b, j)} of update {job["update_id"]}, which is not committed')
     if any(not u['committed'] for u in v.updates.values()) and v.jobs:
         obs.tag('uncommitted-update-present')
+    # a batch with no committed job is complete, like one that never had an update (whatever its spec announced, whatever is open)
+    for b, bt in v.batches.items():
+        if bt['n_jobs'] == 0 and not bt['deleted'] and not any(v.committed(b, j['update_id']) for j in v.jobs.values() if j['batch_id'] == b):
+            if len(obs.op.split()) == 5 and obs.op.startswith('createBatch'):
+                obs.tag('batch-created-with-announced-jobs')
+            if bt['state'] != 'complete':
+                return ('batch-without-committed-jobs-not-complete', f'batch {b} has no committed job (n_jobs = 0) but its state is {bt["state"]} '
+                                                                     f'after `{obs.op}`')
     # an update that is merely open (created, not committed) has no effect on the completion of the committed part
     for b, bt in v.batches.items():
         open_ups = [u for (bb, _), u in v.updates.items() if bb == b and not u['committed']]
